@@ -63,8 +63,9 @@ Fixpoint lreplay (s : lstate) (l : list (aev * lobs)) : bool :=
       | AReload => (true, s)      (* touches neither the work queue nor lastFailed *)
       end in
     ok && lobs_ok s' o &&
-    (* when the model says nothing is pending, the comparison must have been made and hold *)
-    (q_pending (ls_q s') || q_wch (ls_q s') || negb (ls_attempted s') ||
+    (* after an attempt, when the model says nothing is pending, the comparison must have been made and hold *)
+    (match ev with AAttempt _ _ _ => false | _ => true end ||
+     q_pending (ls_q s') || q_wch (ls_q s') || negb (ls_attempted s') ||
      match ob_same o with Some true => true | _ => false end) &&
     lreplay s' l'
   end.
